@@ -1,7 +1,7 @@
 """C05 — MATLAB call-site ids and the MEX dispatch table always agree (explicit-state model checking on the real code).
 
 State machine = the real MatlabWrapper consuming declarations; a transition appends one declaration shape from a
-21-letter alphabet to the interface; the state reached is rebuilt by running the real generator on the whole
+23-letter alphabet to the interface; the state reached is rebuilt by running the real generator on the whole
 sequence (live objects are never copied).  States are canonicalised as (next id, multiset of allocated roles).
 The invariant is evaluated in every state, i.e. on every generated toolbox:
     ids at .m call sites == case labels == {0..n-1}; every id has exactly one call site and one case; every case
@@ -57,7 +57,8 @@ def shape(k, i):
                           D.static(single(T('void')), 'sb' + s, []), D.method(single(I), 'mm' + s, [])])]
     if k == 'props':
         C = 'Pp' + s
-        return [D.cls(C, [D.ctor(C), D.prop(I, 'pa' + s), D.prop(T('double'), 'pb' + s), D.method(single(I), 'mp' + s, [])])]
+        return [D.cls(C, [D.ctor(C), D.prop(I, 'pa' + s), D.prop(T('double'), 'pb' + s), D.prop(T('double', 1), 'pconst' + s),
+                          D.method(single(I), 'mp' + s, [])])]
     if k == 'tclass':
         C = 'Tc' + s
         return [D.cls(C, [D.ctor(C, [arg(T('T'), 'v')]), D.method(single(T('T')), 'get', []), D.static(single(I), 'st', [])],
@@ -82,6 +83,10 @@ def shape(k, i):
         # overloads of one free function separated by other declarations
         return [D.func(single(I), 'fs' + s, [arg(I, 'a')]), D.func(single(I), 'fo' + s, [arg(T('double'), 'x')]),
                 D.cls('Mid' + s, [D.ctor('Mid' + s)]), D.func(single(I), 'fs' + s, [arg(I, 'a'), arg(I, 'b')])]
+    if k == 'funcs-reopened':
+        # overloads of one free function in two blocks of the same namespace
+        return [D.ns('ro' + s, [D.func(single(I), 'fr', [arg(I, 'a')]), D.cls('Ra' + s, [D.ctor('Ra' + s)])]),
+                D.ns('ro' + s, [D.func(single(I), 'fr', [arg(T('double'), 'x'), arg(I, 'b')]), D.func(single(I), 'gr', [])])]
     if k == 'plain-derived':
         B, C = 'Nb' + s, 'Nd' + s
         return [D.cls(B, [D.ctor(B), D.static(single(I), 'unit', [])]),
@@ -95,6 +100,13 @@ def shape(k, i):
     if k == 'underscore':
         C = 'Cal3_S' + s
         return [D.ns('un' + s, [D.cls(C, [D.ctor(C), D.prop(I, 'fx'), D.prop(T('double'), 'max_set_get_size'), D.method(single(I), 'k_get', [], 1)], v=1)])]
+    if k == 'twins':
+        # the same class, static method, helper namespace and free function (identical signatures) in two sibling scopes
+        def half(side):
+            return D.ns(side + s, [D.cls('Grid', [D.ctor('Grid'), D.static(single(T('double')), 'Spacing', [arg(T('double'), 'a', '1.0')]),
+                                                  D.method(single(I), 'size', [arg(I, 'k', '2')], 1)]),
+                                   D.ns('util', [D.func(single(T('double')), 'norm', [arg(T('double'), 'x'), arg(I, 'p', '2')])])])
+        return [half('left'), half('right')]
     if k == 'rolenames':
         C = 'Rn' + s
         return [D.cls(C, [D.ctor(C), D.method(single(T('string')), 'string_serialize', [], 1),
@@ -108,7 +120,7 @@ def shape(k, i):
 
 
 ALPHABET = ['plain', 'ctors', 'noctor', 'virtual', 'derived', 'overloads', 'statics', 'props', 'tclass', 'serial',
-            'ignored', 'func', 'funcs', 'tfunc', 'enum', 'ns', 'funcs-split', 'plain-derived', 'rolenames', 'funcs3', 'underscore']
+            'ignored', 'func', 'funcs', 'tfunc', 'enum', 'ns', 'funcs-split', 'plain-derived', 'rolenames', 'funcs3', 'underscore', 'twins', 'funcs-reopened']
 CORE = ['plain', 'derived', 'overloads', 'props', 'funcs', 'ns']
 ALPHA4 = ['plain', 'ctors', 'virtual', 'derived', 'overloads', 'statics', 'props', 'tclass', 'serial', 'funcs', 'ns', 'plain-derived']
 
@@ -258,10 +270,16 @@ def routine_role(name, body):
         # static method: checkArguments("<Cpp>.<name>", ...) ; routine <tag>_<name>
         member = cname.split('.')[-1]
         tag = base[:-(len(member) + 1)] if base.endswith('_' + member) else base
-        ok = re.search(r'::%s(<[^(]*>)?\(' % re.escape(member), b) is not None
+        mq = re.search(r'((?:\w+::)+)%s(<[^(]*>)?\(' % re.escape(member), b)
+        ok = mq is not None or re.search(r'::%s(<[^(]*>)?\(' % re.escape(member), b) is not None
+        if mq is not None and mq.group(1).replace('::', '') != tag and base == tag + '_' + member:
+            # the routine named after one class calls the static method of another one
+            return ('static-calls-other-class:%s' % mq.group(1).rstrip(':'), tag, member, n)
         return ('static', tag, member, n) if ok else ('static-body-mismatch', tag, member, n)
-    ok = re.search(r'(^|[^\w>])(\w+::)*%s(<[^(]*>)?\(' % re.escape(cname), b, re.M) is not None
-    return ('function', None, base, n) if ok else ('function-body-mismatch', None, base, n)
+    mf = re.search(r'(?:^|[^\w>:])((?:\w+::)*)%s(<[^(]*>)?\(' % re.escape(cname), b, re.M)
+    ok = mf is not None
+    # tag = the namespaces the callee is qualified with (compared with the package of the calling .m file)
+    return ('function', mf.group(1).replace('::', ''), base, n) if ok else ('function-body-mismatch', None, base, n)
 
 
 def check_toolbox(case):
@@ -273,10 +291,22 @@ def check_toolbox(case):
     label = 'len%d' % len(seq)
 
     def add(kind, msg):
+        if case.get('before'):
+            kind = 'reused-wrapper|' + kind
         viol.append({'sig': 'C05|%s|%s' % (kind, '+'.join(sorted(set(seq)))[:60] if len(set(seq)) <= 2 else kind),
                      'msg': '%s\nsequence=%s serialization=%s\n--- input ---\n%s' % (msg, seq, ser, text)})
     try:
-        tree = gen.matlab(text, ignore=ignore, serialization=ser)
+        if case.get('before'):
+            # the same MatlabWrapper object has wrapped another module before: the toolbox it writes now must be
+            # consistent as well
+            from gtwrap.matlab_wrapper import MatlabWrapper
+            w = MatlabWrapper(module_name='mod', ignore_classes=list(ignore), use_boost_serialization=ser)
+            first = D.render([x for i, k in enumerate(case['before']) for x in shape(k, 50 + i)])
+            gen.matlab(first, wrapper=w)
+            tree = gen.matlab(text, wrapper=w)
+            text = first + '// ---- second wrap() of the same wrapper object ----\n' + text
+        else:
+            tree = gen.matlab(text, ignore=ignore, serialization=ser)
     except Exception as e:
         return {'viol': [{'sig': 'C05|exception|%s|%s' % (type(e).__name__, '+'.join(sorted(set(seq)))[:60]),
                           'msg': 'generator raised %s: %s\nsequence=%s\n--- input ---\n%s' % (type(e).__name__, str(e)[:300], seq, text)}]}
@@ -295,7 +325,18 @@ def check_toolbox(case):
         add('duplicate-case', 'duplicate case labels %s' % sorted(case_ids))
     if not inconclusive:
         if sorted(set(ids_sites)) != sorted(set(case_ids)):
-            add('ids-vs-cases', 'ids at call sites %s != case labels %s' % (sorted(set(ids_sites)), sorted(set(case_ids))))
+            # one violation per orphan, named after the routine (digits of the position-dependent names removed)
+            id2r = {cid: (calls[0] if calls else '?') for cid, calls in mex['cases']}
+            for cid in sorted(set(case_ids) - set(ids_sites)):
+                rn = re.sub(r'\d+', '', id2r.get(cid, '?')).rstrip('_')
+                viol.append({'sig': 'C05|%scase-without-call-site|%s' % ('reused-wrapper|' if case.get('before') else '', rn),
+                             'msg': 'case %d (routine %s) is not reached from any generated .m file; ids at call sites %s, case labels %s\n'
+                                    'sequence=%s%s serialization=%s\n--- input ---\n%s'
+                                    % (cid, id2r.get(cid), sorted(set(ids_sites)), sorted(set(case_ids)), seq,
+                                       ' after %s' % case['before'] if case.get('before') else '', ser, text)})
+            for cid in sorted(set(ids_sites) - set(case_ids)):
+                where = [s_[2] for s_ in sites if s_[0] == cid][:2]
+                add('call-site-without-case', 'id %d used in %s has no case; case labels %s' % (cid, where, sorted(set(case_ids))))
         dup = sorted({i for i in ids_sites if ids_sites.count(i) > 1})
         if dup:
             add('id-used-at-two-call-sites', 'ids %s are used by more than one call site: %s'
@@ -345,7 +386,7 @@ def roles_agree(site, routine, serial_tags=()):
         return False
     if sk == 'function':
         # site tag = namespaces, member = function name; routine name = function name (instantiated)
-        return smem == rmem and (sar is None or rar is None or sar == rar)
+        return smem == rmem and (sar is None or rar is None or sar == rar) and (rtag is None or stag == rtag)
     if sk == 'upcast':
         return stag == rtag
     if stag != rtag:
@@ -380,6 +421,11 @@ def run(ctx):
         cases.append({'seq': s, 'ser': False})
         if 'serial' in s:
             cases.append({'seq': s, 'ser': True})
+    # histories: one wrapper object wraps two modules one after the other
+    for k1 in ALPHABET:
+        for k2 in ALPHABET:
+            if 'ignored' not in (k1, k2):
+                cases.append({'seq': [k2], 'before': [k1], 'ser': False})
     res = ctx.map(check_toolbox, cases)
     states = {r['canon'] for _, r in res if 'canon' in r}
     return {
@@ -392,7 +438,7 @@ def run(ctx):
         'ids_role_checked': sum(r.get('nroles', 0) for _, r in res),
         'inconclusive_m_files': sum(r.get('inconclusive', 0) for _, r in res),
         'alphabet': ALPHABET, 'core_alphabet': CORE,
-        'rule': 'every declaration sequence of length <= %d over the 21-letter alphabet%s (plus both serialization settings '
+        'rule': 'every declaration sequence of length <= %d over the 23-letter alphabet%s (plus both serialization settings '
                 'where a serializable class occurs); each transition runs the real MatlabWrapper on the extended interface; '
                 'states = distinct canonical (next id, role multiset); the invariant is checked on every toolbox'
                 % ((3, ', length 4 over a 12-letter sub-alphabet and length 5..6 over the 6-letter core') if ctx.thorough else (3, ' and length 4 over the 6-letter core')),
